@@ -1,6 +1,7 @@
 ----------------------------- MODULE SessTrace -----------------------------
 (* Trace validation for Sessions: is every recorded execution of a real RF=1 leader controller  *)
-(* (CreateSession / KeepAlive / CloseSession / WriteBlock / restart, session timers on the      *)
+(* (CreateSession / KeepAlive / CloseSession / WriteBlock / election of a node whose DB lags    *)
+(* its log / population of the shard around the range-delete threshold, session timers on the   *)
 (* harness's tick clock, cleanups parked between listing and delete write) a behaviour of       *)
 (* Sessions.tla - and does every state / step of it satisfy the C14 properties?                 *)
 (* One line of trace.ndjson per call, in call order.  The call and its arguments are bound from *)
@@ -51,7 +52,9 @@ TNext ==
              \/ e.a = "CloseBegin" /\ CloseBeginEnabled(sys, e.s) /\ Match(DoCloseBegin(sys, e.s), e, FALSE)
              \/ e.a = "Cleanup" /\ e.s \in DOMAIN sys.pend /\ Match(DoCleanup(sys, e.s), e, FALSE)
              \/ e.a = "Write" /\ ~Known(e) /\ Match(DoWrite(sys, e.req), e, TRUE)
-             \/ e.a = "LeaderChange" /\ LeaderChangeEnabled(sys) /\ Match(DoLeaderChange(sys), e, FALSE)
+             \/ e.a = "LeaderChange" /\ LeaderChangeEnabled(sys) /\ LagOK(sys, e.lag)
+                                      /\ Match(DoLeaderChange(sys, e.lag), e, FALSE)
+             \/ e.a = "Fill" /\ Match(DoFill(sys, e.fill), e, FALSE)
        \* known finding sessCleanupRace (design/C14.md): not judged up to the next Reset
        \/ ~kf /\ Known(e) /\ sys' = sys /\ kf' = TRUE
        \/ kf /\ e.a # "Reset" /\ sys' = sys /\ kf' = kf
